@@ -1015,7 +1015,7 @@ def check(run):
                 "Coq. non-trivial = at least two round trips were possible")
     core.decide(run, items, IMPORTS, "accept_C12", oracle, shard=30)
     # object level: the modelled species writer / reader against species_to_dict / species_from_dict, dictionary for dictionary
-    ns = 120 if run.tier == "quick" else 3000
+    ns = 120 if run.tier == "quick" else 1000
     sitems = species_items([make_species_case(rng) for _ in range(ns)])
     for it in sitems:
         for label, _, _ in it["obs"].get("variants", []):
